@@ -519,13 +519,23 @@ class WebSocketResponse(StreamResponse, Generic[_DecodeText]):
         self._set_closed()
 
         try:
-            await self._writer.close(code, message)
-            writer = self._payload_writer
-            assert writer is not None
-            if drain:
-                await writer.drain()
-        except (asyncio.CancelledError, asyncio.TimeoutError):
+            # Sending our close frame counts against the close timeout as well:
+            # a peer that stopped reading must not hold close() for ever.
+            async with async_timeout.timeout(self._timeout):
+                await self._writer.close(code, message)
+                writer = self._payload_writer
+                assert writer is not None
+                if drain:
+                    await writer.drain()
+        except asyncio.CancelledError:
             self._set_code_close_transport(WSCloseCode.ABNORMAL_CLOSURE)
+            raise
+        except asyncio.TimeoutError:
+            # Nothing more can be flushed to this peer: drop the connection, which
+            # also ends a receive() that another task may be waiting in.
+            self._close_code = WSCloseCode.ABNORMAL_CLOSURE
+            if self._req is not None and self._req.transport is not None:
+                self._req.transport.abort()
             raise
         except Exception as exc:
             self._exception = exc
